@@ -3,6 +3,7 @@ package checks
 import (
 	"bytes"
 	"fmt"
+	"reflect"
 	"sort"
 	"unsafe"
 
@@ -134,21 +135,18 @@ func (m *c08Monitor) onDelivery(n int, tx *gobinlog.Transaction, d *run.Delivere
 	if !m.verifyAll(fmt.Sprintf("at delivery %d", n)) {
 		return
 	}
-	// overlap of delivered values' memory [ptr, ptr+len)
+	// overlap of delivered values' memory [ptr, ptr+len): every byte slice that
+	// can be reached from the transaction through exported fields (found by
+	// reflection, so a value handed out in a field this harness does not know
+	// is covered as well)
 	var mine []span
-	for ei, e := range tx.Events {
-		for side, rows := range [][]*gobinlog.RowData{e.RowValues, e.RowIdentifies} {
-			for ri, row := range rows {
-				for ci, col := range row.Columns {
-					if len(col.Data) == 0 {
-						continue
-					}
-					lo := uintptr(unsafe.Pointer(&col.Data[0]))
-					mine = append(mine, span{lo, lo + uintptr(len(col.Data)), fmt.Sprintf("tx%d.ev%d.side%d.row%d[%d](type %d)", n, ei, side, ri, ci, int(col.Type))})
-				}
-			}
+	walkByteSlices(reflect.ValueOf(tx), fmt.Sprintf("tx%d", n), map[uintptr]bool{}, func(path string, b []byte) {
+		if len(b) == 0 {
+			return
 		}
-	}
+		lo := uintptr(unsafe.Pointer(&b[0]))
+		mine = append(mine, span{lo, lo + uintptr(len(b)), path})
+	})
 	m.values += len(mine)
 	all := append(m.spans, mine...)
 	sort.Slice(all, func(i, j int) bool { return all[i].lo < all[j].lo })
@@ -196,7 +194,7 @@ func (m *c08Monitor) onDelivery(n int, tx *gobinlog.Transaction, d *run.Delivere
 }
 
 func checkC08(c *core.Ctx) {
-	c.SetRule("histories rich in temporal columns (one value in three the type's all-zero value, half of the fractional columns with 0 digits), blobs sized around the driver's 4096-byte read buffer (4 000..4 100, 8 100..8 200, 16 300..16 390, 70 000 bytes) and many tiny events; master far ahead, slow handler, transport reads chunked (1-byte, header-splitting, exactly-4096, random); every delivered transaction is retained; monitors: snapshot vs live object at every later delivery and after quiescence, address-range overlap of all delivered values, scribble (XOR every byte of every value, one value at a time) then all later deliveries and a SECOND stream of the same history in the same process are compared with the model; race reports between handler code and library code count. distinct by (history bytes, scribble); non-trivial iff >= 2 deliveries carry values")
+	c.SetRule("histories rich in temporal columns (one value in three the type's all-zero value, half of the fractional columns with 0 digits), blobs sized around the driver's 4096-byte read buffer (4 000..4 100, 8 100..8 200, 16 300..16 390, 70 000 bytes) and many tiny events; master far ahead, slow handler, transport reads chunked (1-byte, header-splitting, exactly-4096, random); every delivered transaction is retained; monitors: snapshot vs live object at every later delivery and after quiescence, address-range overlap of every byte slice reachable from a delivered transaction through exported fields (by reflection), scribble (XOR every byte of every value, one value at a time) then all later deliveries and a SECOND stream of the same history in the same process are compared with the model; race reports between handler code and library code count. distinct by (history bytes, scribble); non-trivial iff >= 2 deliveries carry values")
 	c.Assume("only bytes [0,len) of a delivered value are written or compared")
 	nh := c.N(80, 1500)
 	if c.Replay != "" {
@@ -325,5 +323,53 @@ func c08Run(c *core.Ctx, scn c08Scn) {
 	}
 	if c.WantSample() && scn.Scribble {
 		c.Sample(map[string]interface{}{"scenario": scn, "units": unitNames(h), "values_retained": mon.values, "rechecks": mon.checked})
+	}
+}
+
+// walkByteSlices visits every non-empty []byte reachable from v through
+// exported struct fields, pointers, slices, arrays, maps and interfaces.
+func walkByteSlices(v reflect.Value, path string, seen map[uintptr]bool, visit func(path string, b []byte)) {
+	switch v.Kind() {
+	case reflect.Ptr:
+		if v.IsNil() || seen[v.Pointer()] {
+			return
+		}
+		seen[v.Pointer()] = true
+		walkByteSlices(v.Elem(), path, seen, visit)
+	case reflect.Interface:
+		if !v.IsNil() {
+			walkByteSlices(v.Elem(), path, seen, visit)
+		}
+	case reflect.Struct:
+		tp := v.Type()
+		for i := 0; i < v.NumField(); i++ {
+			if tp.Field(i).PkgPath != "" {
+				continue // unexported: the library's own business
+			}
+			walkByteSlices(v.Field(i), path+"."+tp.Field(i).Name, seen, visit)
+		}
+	case reflect.Slice:
+		if v.IsNil() {
+			return
+		}
+		if v.Type().Elem().Kind() == reflect.Uint8 {
+			visit(path, v.Bytes())
+			return
+		}
+		for i := 0; i < v.Len(); i++ {
+			walkByteSlices(v.Index(i), fmt.Sprintf("%s[%d]", path, i), seen, visit)
+		}
+	case reflect.Array:
+		if v.Type().Elem().Kind() == reflect.Uint8 {
+			return
+		}
+		for i := 0; i < v.Len(); i++ {
+			walkByteSlices(v.Index(i), fmt.Sprintf("%s[%d]", path, i), seen, visit)
+		}
+	case reflect.Map:
+		it := v.MapRange()
+		for it.Next() {
+			walkByteSlices(it.Value(), fmt.Sprintf("%s[%v]", path, it.Key()), seen, visit)
+		}
 	}
 }
